@@ -9,5 +9,6 @@ CONSTANTS
   SerialReg = FALSE
   MaxBatch = 0
   RetryEnds = TRUE
+  MaxAck = 0
 INVARIANTS AllGone NoCrash OwnCleanupOnly NewestSender NewestReceiver
 CHECK_DEADLOCK FALSE
